@@ -174,7 +174,20 @@ func throughDisk(f *sfnt.Font) *sfnt.Font {
 
 func chooseWorld(t *tape.Tape) world {
 	w := chooseWorld0(t)
-	if t.Chance(1, 4) {
+	if t.Chance(1, 12) {
+		// lookup data beyond 64 KiB: the encoder reorders lookups and
+		// introduces extension subtables (its rare path)
+		build, seed := w.build, t.Raw()
+		w.build = func() *sfnt.Font {
+			f := build()
+			if g := simgen.BigGpos(tape.New(seed), f.NumGlyphs()); g != nil {
+				f.Gpos = g
+			}
+			return f
+		}
+		w.name += "+64KiB-of-kerning"
+		w.subsetOK = false
+	} else if t.Chance(1, 4) {
 		// kerning data of realistic size (3..12 KiB per subtable)
 		build, seed := w.build, t.Raw()
 		w.build = func() *sfnt.Font {
@@ -337,7 +350,13 @@ func run(c *wk.Case) {
 
 	// ---- oracle 3: the shared font is unchanged
 	if after := simgen.FontDigest(F); after != before {
-		c.Fail("shared-font-modified", w.name, "the digest of the shared font changed during the concurrent phase (read-only operations only)")
+		// name the field: compare with an identical font built afresh
+		where := simgen.FontDiff(w.build(), F)
+		loc := where
+		if i := strings.IndexAny(loc, "[:"); i > 0 {
+			loc = loc[:i]
+		}
+		c.Fail("shared-font-modified", loc, "the shared font %s changed during the concurrent phase (read-only operations only): %s", w.name, where)
 	}
 
 	// ---- oracle 2: every result equals the solo result on an identical font
